@@ -135,3 +135,38 @@ Proof.
   split; [vm_compute; reflexivity|]. split; [vm_compute; discriminate|].
   split; [vm_compute; reflexivity|]. split; vm_compute; reflexivity.
 Qed.
+
+(* ---------------------------------------------------------------------------------------------------------
+   The concurrent part: all interleavings of segment fetches with segment rollover (Model/C10HlsLts.v).
+   One writer consuming any frame input, any number of fetchers (lookup under the read lock; copy + unlock),
+   every schedule [sched] of their steps. *)
+From V Require Import C10HlsLts C10HlsLtsProofs.
+
+(* with the read lock held from lookup to copy (the code as it is) every completed fetch returned exactly the
+   frames — hence the transport stream — of the segment that carried the requested number at lookup time, a
+   segment the generator produced for that number ([closed]); or not-found if the number was not listed then *)
+Theorem C10_fetch_stable_under_rollover : forall c fs sched,
+  let l := lrun true c (linit c fs) sched in
+  forall r, In r (l_recs l) ->
+    (forall x, fr_res r = Some x -> x = expected r) /\
+    (forall g, fr_at r = Some g -> s_seq g = fr_seq r /\ In g (closed (l_st l))) /\
+    fetch_ok r = true.
+Proof. exact fetch_stable_under_rollover. Qed.
+Print Assumptions C10_fetch_stable_under_rollover.
+
+(* lookup and copy not in one critical section: nil dereference (memory) / error (disk) for a listed segment,
+   and the writer never waits; the same schedule on the locked system is fine and the writer does wait *)
+Theorem C10_fetch_unlocked_refuted :
+  map fr_res (l_recs (lrun false d35_cfg (linit d35_cfg race_frames) race_sched)) = [Some FPanic] /\
+  map fr_res (l_recs (lrun false disk_cfg (linit disk_cfg race_frames) race_sched)) = [Some FErr] /\
+  forallb fetch_ok (l_recs (lrun false d35_cfg (linit d35_cfg race_frames) race_sched)) = false /\
+  forallb fetch_ok (l_recs (lrun true d35_cfg (linit d35_cfg race_frames) race_sched)) = true /\
+  existsb (fun b => b) (ltrace true d35_cfg (linit d35_cfg race_frames) race_sched) = true.
+Proof. exact fetch_unlocked_refuted. Qed.
+Print Assumptions C10_fetch_unlocked_refuted.
+
+(* the oracle applied to a schedule replayed on the implementation accepts the model, for every input and schedule *)
+Theorem C10_lts_model_passes : forall c fs sched,
+  lts_ok c fs sched (fst (lts_model true c fs sched)) (snd (lts_model true c fs sched)) = true.
+Proof. exact lts_model_passes. Qed.
+Print Assumptions C10_lts_model_passes.
